@@ -16,8 +16,12 @@
      apply to explorations started from snapshots, and no explored step panics.
    - Found while proving (C15_recover_without_readd_refuted): after recover_node the network still locates the
      cleared processes; until they are re-added the snapshot is not well-formed: a message to such a process panics
-     in the checker exactly as it does in the simulator (same failure on both sides; excluded by `Installed`). *)
-From ASV Require Import Base.Util Base.Msg Base.Log Model.Sim Model.McSys Model.Snapshot Spec.TimeLaws Spec.SimSpec Proofs.SnapshotP.
+     in the checker exactly as it does in the simulator (same failure on both sides; excluded by `Installed`).
+   - KNOWN FINDING F15 (C15_routes_differ_refuted): the clause 'consequently the two routes visit the same states' is
+     false: a handler that sets timer 1 (delay 2) and then timer 0 (delay 0): the snapshot lists the two pending timers
+     in real firing order (timer 1 withheld behind timer 0), the callback route in insertion order (nothing withheld,
+     both orders explored): same processes, same network, same pending timers, different offered sets. *)
+From ASV Require Import Base.Util Base.Msg Base.Log Model.Sim Model.McSys Model.Snapshot Spec.TimeLaws Spec.SimSpec Proofs.SnapshotP Proofs.RoutesEx.
 
 Definition C15_nodes := @snapshot_nodes.
 Definition C15_net := @snapshot_net.
@@ -33,6 +37,10 @@ Definition C15_awf := @snapshot_awf.
 Definition C15_start_ok := @snapshot_start_ok.
 Definition C15_installed_without_recover := @registered_no_recover.
 Definition C15_recover_without_readd_refuted := @SnapEx.s2_checker_panics.
+Definition C15_routes_differ_refuted := @RoutesEx.routes_differ.
+Definition C15_routes_same_processes := @RoutesEx.routes_same_processes.
+Definition C15_routes_pending := @RoutesEx.routes_pending.
+Definition C15_routes_prefix_reachable := @RoutesEx.sA_reachable.
 
 Print Assumptions C15_nodes.
 Print Assumptions C15_net.
@@ -48,3 +56,7 @@ Print Assumptions C15_awf.
 Print Assumptions C15_start_ok.
 Print Assumptions C15_installed_without_recover.
 Print Assumptions C15_recover_without_readd_refuted.
+Print Assumptions C15_routes_differ_refuted.
+Print Assumptions C15_routes_same_processes.
+Print Assumptions C15_routes_pending.
+Print Assumptions C15_routes_prefix_reachable.
